@@ -7,15 +7,15 @@ package main
 // In-process through the real mux; and end-to-end over TCP (a panic shows as a dropped connection there).
 
 import (
-	"sync/atomic"
-	"sync"
-	"net"
-	"encoding/hex"
 	"bytes"
 	"crypto/ed25519"
+	"encoding/hex"
 	"fmt"
 	"math/rand"
+	"net"
 	"strings"
+	"sync"
+	"sync/atomic"
 	"time"
 
 	"github.com/brutella/hc/accessory"
@@ -177,6 +177,10 @@ func checkC13(c *Ctx) {
 	}
 	scens := []scen{{"pair-setup", 0}, {"pair-setup", 1}, {"pair-setup", 2}, {"pair-verify", 0}, {"pair-verify", 1},
 		{"json-verified", 0}, {"json-unverified", 0}, {"pairings-verified", 0}}
+	c13Unstorable(c)
+	if c.NumViolations() > 0 {
+		return // the in-process streams below share the storage lock with this process
+	}
 	reps := c.Pick(2, 40)
 	total := len(scens) * reps
 	parallel(total, func(k int) {
@@ -369,6 +373,74 @@ func c13One(c *Ctx, id, scen string, state, ii int, r0 *rand.Rand) {
 		}
 	}
 	c.Trace()
+}
+
+// c13Unstorable runs first, in a child process of its own: the storage serialises its writers with one lock for the
+// whole process, so a lock that is not given back would wedge this harness as well as the accessory.
+func c13Unstorable(c *Ctx) {
+	id := "e2e-unstorable#0"
+	if c.Skip(id) {
+		return
+	}
+	r := c.CaseRng("e2e-unstorable", 0)
+	acc, err := startE2EChild(c.ScratchDir())
+	if err != nil {
+		c.Violate("transport does not start", id, nil, "started", err.Error())
+		return
+	}
+	defer acc.Stop()
+	ident := newRefIdentity(r, "ctrl-1")
+	first, _ := acc.Dial()
+	sr := refPairSetup(r, first.Post(), "001-02-003", ident)
+	first.Close()
+	if sr.ErrAt != "" {
+		c.Violate("reference controller cannot pair", id, nil, "paired", sr.ErrAt)
+		return
+	}
+	// ---- a pairing that cannot be stored (its file name is too long), then ordinary pairing management: the refusal
+	// of one write must not keep the next ones from being answered
+	admin := func(desc string, body []byte, want string) bool {
+		cl, err := acc.Dial()
+		if err != nil {
+			c.Violate("accessory does not accept connections any more", id, desc, "connect", err.Error())
+			return false
+		}
+		defer cl.Close()
+		vr := refPairVerify(r, cl.Post(), ident, sr.AccLTPK)
+		if vr.Shared == nil {
+			c.Violate("paired reference controller cannot verify", id, desc, "verified", vr.ErrAt)
+			return false
+		}
+		cl.Upgrade(vr.Shared)
+		cl.timeout = 5 * time.Second
+		m, err := cl.Do("POST", "/pairings", "application/pairing+tlv8", body)
+		c.Count("tcp verified connection: "+desc, true, "e2e:unstorable")
+		if err != nil {
+			c.Violate("a request of a verified controller is not answered (the accessory is wedged)", id,
+				map[string]interface{}{"history": "POST /pairings adding a controller whose name is 200 bytes long (no file of that name can be created); then " + desc}, want, err.Error())
+			return false
+		}
+		if want == "added" {
+			if it, ok := refTlvParse(m.Body); m.Status != 200 || !ok || tlvHas(it, tError) {
+				c.Violate("a request of a verified controller is not answered (the accessory is wedged)", id,
+					map[string]interface{}{"history": "POST /pairings adding a controller whose name is 200 bytes long; then " + desc}, want, fmt.Sprintf("status %d body %s", m.Status, hx(m.Body)))
+				return false
+			}
+		}
+		return true
+	}
+	long := bytes.Repeat([]byte("n"), 200)
+	if admin("add a controller with a 200-byte name", tlvMsg(tlvOp{tState, b1(1)}, tlvOp{tMethod, b1(3)}, tlvOp{tID, long}, tlvOp{tPubKey, randBytes(r, 32)}, tlvOp{tPerm, b1(0)}), "any answer") {
+		for k := 0; k < 2; k++ {
+			if !admin(fmt.Sprintf("add an ordinary controller (%d)", k+1), tlvMsg(tlvOp{tState, b1(1)}, tlvOp{tMethod, b1(3)}, tlvOp{tID, []byte(fmt.Sprintf("ordinary-%d", k))}, tlvOp{tPubKey, randBytes(r, 32)}, tlvOp{tPerm, b1(0)}), "added") {
+				break
+			}
+		}
+	}
+	if !acc.Alive() {
+		c.Violate("remote input ends the accessory process", id, "a pairing that cannot be stored", "accessory keeps serving", "process exited")
+		return
+	}
 }
 
 // ---- (B) end-to-end: a panic is a dropped connection --------------------------------------------------------
